@@ -67,6 +67,8 @@ class Renamer:
             return ("discr", tuple(self.path(p) for p in c[1]), c[2])
         if c[0] == "not":
             return ("not", self.cond(c[1]))
+        if c[0] == "deq":
+            return ("deq", tuple(self.path(p) for p in c[1]), c[2], c[3], c[4], self.lin(c[5]), self.lin(c[6]))
         return tuple(self.lin(x) if isinstance(x, Lin) else x for x in c)
 
     def val(self, v):
